@@ -15,6 +15,7 @@ PYTHONPATH, and the results are compared:
 S-fn: `mm3hash` and `build_iso_path` collision numbering vs the Lean model.
 """
 import hashlib
+import fnmatch
 import importlib.machinery
 import importlib.util
 import os
@@ -28,7 +29,7 @@ from harness import core, isoapi
 
 LEAN_MODULES = ['Pycdlib.Props.C20', 'Pycdlib.Props.C18']
 THEOREMS = ['Pycdlib.Tools.fmt3_injective', 'Pycdlib.Tools.isoChild_fresh', 'Pycdlib.Tools.isoChildren_nodup',
-            'Pycdlib.Tools.collision_names_distinct', 'Pycdlib.Tools.collision_file_legal', 'Pycdlib.Tools.collision_dir_legal',
+            'Pycdlib.Tools.collision_names_distinct', 'Pycdlib.Tools.isoChild_legal', 'Pycdlib.Tools.isoChildren_legal', 'Pycdlib.Tools.collision_file_legal', 'Pycdlib.Tools.collision_dir_legal',
             'Pycdlib.Tools.mm3_collision', 'Pycdlib.Tools.dedup_key_not_injective', 'Pycdlib.Tools.joliet_component_le',
             'Pycdlib.mangle_file_legal', 'Pycdlib.mangle_dir_legal']
 PARTIAL = {
@@ -91,7 +92,9 @@ def make_tree(rng, root):
             dirs.append(rel)
         elif r < 0.33:
             tree[rel] = ('l', rng.choice(['a', '../b.txt', 'sub/x', '/abs/path', '.', 'dir/' + 'n' * 120, './readme.txt', 'docs/../readme.txt',
-                                          'old/../old/./notes.txt', 'dir/', 'a//b', '..', '../..']))
+                                          'old/../old/./notes.txt', 'dir/', 'a//b', '..', '../..',
+                                          '/'.join('comp%02d' % i for i in range(60)), '/'.join('d%02d' % i for i in range(120)),
+                                          '../' + '/'.join('directory%02d' % i for i in range(40)), '/'.join(['abcdefghij'] * rng.randint(12, 40))]))
         else:
             tree[rel] = ('f', rng.choice(contents) if rng.random() < 0.8 else bytes(rng.randrange(256) for _ in range(rng.choice([1, 100, 2049]))))
     for rel, v in sorted(tree.items()):
@@ -155,6 +158,25 @@ def case(ctx, rng, tmp):
         opts.append('-udf')
     if dup:
         opts.append('-scan-for-duplicates')
+    # exclude / hide patterns (their own random stream, so that older replays keep their trees): shell patterns match a
+    # whole name, so the expected tree is the source tree without the names fnmatchcase() accepts
+    prng = random.Random(seed ^ 0x5eed)
+    excl, hide_j, hide_u = [], [], []
+    if prng.random() < 0.35:
+        pool = PATTERNS + [os.path.basename(k) for k in sorted(tree)][:4]
+        for _ in range(prng.randint(1, 2)):
+            pat = prng.choice(pool)
+            excl.append(pat)
+            opts += [prng.choice(['-m', '-x']), pat]
+        if not dup:
+            if jol and prng.random() < 0.4:
+                hide_j.append(prng.choice(pool))
+                opts += ['-hide-joliet', hide_j[-1]]
+            if udf and prng.random() < 0.4:
+                hide_u.append(prng.choice(pool))
+                opts += ['-hide-udf', hide_u[-1]]
+    matches = lambda name, pats: any(fnmatch.fnmatchcase(name, p) for p in pats)   # noqa
+    tree = {k: v for k, v in tree.items() if not any(matches(c, excl) for c in k.split('/'))}
     img = os.path.join(tmp, 'out%d.iso' % rng.randrange(10 ** 9))
     rc, so, se = run_tool([GENISO, '-o', img] + opts + [src], tmp)
     nontriv = any(v[0] == 'l' for v in tree.values()) or any(k.count('/') >= 2 for k in tree) or dup
@@ -222,7 +244,8 @@ def case(ctx, rng, tmp):
             shutil.rmtree(dest, ignore_errors=True)
             continue
         got_tree = read_tree(dest)
-        exp = dict(files)
+        hidden = {'joliet': hide_j, 'udf': hide_u}.get(ptype, [])
+        exp = {k: v for k, v in files.items() if not matches(os.path.basename(k), hidden)}
         exp.update(dirs)
         if has_links:
             exp.update(links)
@@ -246,6 +269,9 @@ def case(ctx, rng, tmp):
         shutil.rmtree(dest, ignore_errors=True)
     shutil.rmtree(src, ignore_errors=True)
     os.unlink(img)
+
+
+PATTERNS = ['a', 'c', 'gz', 'txt', 'TXT', '1', 'dir', 'hidden', 'file', 'y', 'data?', '*.txt', 'long*', 'sub', 'readme', '[ab]*', 'x y', 'b.txt', 'ME', 'b', 'UB']
 
 
 COLLIDE_POOLS = [
